@@ -1,10 +1,22 @@
-"""C10 Nearest-centre assignment and per-trajectory bookkeeping."""
+"""C10 Nearest-centre assignment and per-trajectory bookkeeping.
+
+The constructs are located by ROLE (parameters by position, "the array that is
+returned", "the list that receives the append", "the call to the metric
+parameter", the Assume nodes of the CFG that dominate a statement) and their
+contents are compared after expansion of temporaries and canonicalisation
+against lists of accepted forms.  Every content comparison is three-valued: an
+accepted form discharges the obligation, a positively different computation of
+the same operands is a VIOLATION, anything the rule cannot see through is
+reported as analysis-incomplete (ck.missing)."""
 import ast
 
-from ..core import (AnalysisIncomplete, call_name, kwarg, names_loaded,
-                    params, target_names, u, walk_expr, walk_local)
-from ..patterns import (Cmp, assigns_to, calls_in, check_no_arg_mutation,
-                        conjuncts, finfo, returns_of, subscript_stores)
+from ..cfg import Assume
+from ..core import (call_name, const_value, names_loaded, params,
+                    target_names, u, walk_expr, walk_local)
+from ..match import C, canon, classify, match
+from ..patterns import (Cmp, assigns_to, calls_in, canon_atom,
+                        check_no_arg_mutation, conjuncts, finfo, returns_of,
+                        subscript_stores)
 from .cluster_common import CU, check_running_min_commit
 from .C01 import d2_argmin_branch
 
@@ -26,297 +38,1106 @@ EXPLANATION = (
     'guard; plus no argument mutation (A4). Minimality of distances as numbers '
     'is not decided.')
 
+INF = ('np.inf', "float('inf')", 'math.inf', 'np.Inf', 'np.infty', 'numpy.inf')
+
+
+# ---------------------------------------------------------------------------
+# helpers (role location, expansion through named helper calls, path conditions)
+
+def _inside(node, anc):
+    """`node` is `anc` or lies (syntactically) inside it."""
+    return any(x is node for x in ast.walk(anc))
+
+
+def _enclosing(mod, node, types, stop=None):
+    n = mod.parent.get(node)
+    while n is not None and n is not stop and not isinstance(n, types):
+        n = mod.parent.get(n)
+    return n if isinstance(n, types) else None
+
+
+def _relaxed_pure(v, allow):
+    """Purity as in sa.normal.is_pure, except that calls whose callee's last
+    name component is in `allow` count as pure: the value-building helpers of
+    the package at hand (partition_list, RaggedArray, ...) whose temporaries
+    the rule must see through."""
+    from ..normal import is_pure
+    for n in ast.walk(v):
+        if isinstance(n, (ast.Yield, ast.YieldFrom, ast.Await, ast.NamedExpr, ast.Lambda)):
+            return False
+        if isinstance(n, ast.Call):
+            cn = call_name(n) or ''
+            if cn and cn.split('.')[-1] in allow:
+                continue
+            if not is_pure(ast.Call(func=n.func, args=[], keywords=[])):
+                return False
+    return True
+
+
+def _temp(fi, name_node, strict, allow):
+    """FuncInfo.temp_value, with the relaxed purity above."""
+    v = fi.temp_value(name_node, strict)
+    if v is not None or not allow:
+        return v
+    if not isinstance(name_node, ast.Name) or not isinstance(name_node.ctx, ast.Load):
+        return None
+    try:
+        defs = fi.defs_of_use(name_node)
+    except Exception:
+        return None
+    if len(defs) != 1:
+        return None
+    site = next(iter(defs))
+    if site in ('PARAM', 'UNBOUND') or not isinstance(site, (ast.Assign, ast.AnnAssign)):
+        return None
+    v = fi.def_value(site, name_node.id)
+    if v is None or isinstance(v, ast.GeneratorExp) or not _relaxed_pure(v, allow):
+        return None
+    if fi._mutated_in_place(name_node.id):
+        return None
+    use = fi.stmt(name_node)
+    for m in walk_expr(v):
+        if not (isinstance(m, ast.Name) and isinstance(m.ctx, ast.Load)):
+            continue
+        if fi.rd.defs_at(site, m.id) != fi.rd.defs_at(use, m.id):
+            return None
+        for ms in (fi._mutated_in_place(m.id) if strict else []):
+            if ms is use or ms is site:
+                continue
+            if fi.cfg.reachable(site, ms, avoiding=[use]) and fi.cfg.reachable(ms, use, avoiding=[site]):
+                return None
+    return v
+
+
+def _rebuild(e, on_name):
+    """Structural copy of an expression; `on_name(name_node)` supplies the
+    replacement of every Name node."""
+    if isinstance(e, ast.Name):
+        return on_name(e)
+    if not isinstance(e, ast.AST):
+        return e
+    if isinstance(e, (ast.expr_context, ast.operator, ast.unaryop, ast.boolop, ast.cmpop)):
+        return e
+    new = type(e)()
+    for f in e._fields:
+        val = getattr(e, f, None)
+        if isinstance(val, list):
+            setattr(new, f, [_rebuild(x, on_name) for x in val])
+        elif isinstance(val, ast.AST):
+            setattr(new, f, _rebuild(val, on_name))
+        else:
+            setattr(new, f, val)
+    for a in ('lineno', 'col_offset', 'end_lineno', 'end_col_offset'):
+        if hasattr(e, a):
+            setattr(new, a, getattr(e, a))
+    return new
+
+
+def xp(fi, expr, allow=(), stop=(), strict=True, depth=8):
+    """fi.expand that also sees through temporaries holding the result of the
+    helper calls named in `allow`."""
+    if expr is None:
+        return None
+
+    def on_name(e, d=depth):
+        if d > 0 and e.id not in stop and isinstance(e.ctx, ast.Load):
+            v = _temp(fi, e, strict, allow)
+            if v is not None:
+                return _rebuild(v, lambda x: on_name(x, d - 1))
+        return ast.copy_location(ast.Name(id=e.id, ctx=e.ctx), e)
+    return _rebuild(expr, on_name)
+
+
+def xt(fi, expr, allow=(), stop=(), strict=True):
+    """Canonical text of the expanded expression."""
+    if expr is None:
+        return 'None'
+    return u(canon(xp(fi, expr, allow, stop, strict)))
+
+
+def ct(node):
+    return u(canon(node)) if node is not None else 'None'
+
+
+def _closed(node, scope, allow=()):
+    """Pure numpy/builtin function (plus the helper calls in `allow`) of the
+    names in scope only: match._closed_over with the relaxed purity."""
+    from ..match import _NEUTRAL
+    if node is None:
+        return False
+    node = canon(node)
+    if not _relaxed_pure(node, allow):
+        return False
+    bound = {t.id for x in ast.walk(node) if isinstance(x, ast.comprehension)
+             for t in ast.walk(x.target) if isinstance(t, ast.Name)}
+    return all(x.id in scope or x.id in _NEUTRAL or x.id in bound or x.id in allow
+               for x in ast.walk(node) if isinstance(x, ast.Name))
+
+
+def _three(ck, ok, node, scope, rule, mod, site, function, construct, detail_ok, detail_bad, allow=()):
+    """ok -> discharged; else a pure function of the operands in `scope` (a
+    different computation in a located role) -> VIOLATION; else incomplete."""
+    if ok:
+        ck.ok(rule, mod, site, construct, detail_ok)
+        return True
+    if node is not None and _closed(node, scope, allow):
+        ck.bad(rule, mod, site, function, construct, detail_bad)
+    else:
+        ck.missing(rule, 'construct not recognised at %s: %s  (%s)' % (mod.loc(site), construct[:160], detail_bad[:160]))
+    return False
+
+
+def _bind(call, pnames):
+    """Positional and keyword arguments of a call bound to parameter names."""
+    if any(isinstance(a, ast.Starred) for a in call.args) or any(k.arg is None for k in call.keywords) \
+            or len(call.args) > len(pnames):
+        return None
+    b = {pnames[i]: a for i, a in enumerate(call.args)}
+    for k in call.keywords:
+        if k.arg in b:
+            return None
+        b[k.arg] = k.value
+    return b
+
+
+def _is_call_to(node, tail):
+    return isinstance(node, ast.Call) and (call_name(node) or '').split('.')[-1] == tail
+
+
+def path_condition(fi, stmt, within, fresh=True):
+    """The branch conditions under which `stmt` executes during one pass
+    through `within` (a loop or the function): the Assume nodes of the CFG that
+    belong to an `if` inside `within` and dominate `stmt`.  Insensitive to
+    if/else vs. early exit (break/continue/return/raise) and to branch order.
+    Returns a list of (test, polarity, if-statement); with `fresh`, None when
+    an operand of such a test may be rebound between the test and `stmt` (the
+    condition then does not speak about the values `stmt` sees)."""
+    inside = {id(x) for x in ast.walk(within)}
+    cfg = fi.cfg
+    out = []
+    for a in cfg.nodes:
+        if not isinstance(a, Assume) or id(a.owner) not in inside or a.owner is within:
+            continue
+        if a.owner is stmt or not cfg.dominates(a, stmt):
+            continue
+        for nm in (names_loaded(a.test) if fresh else ()):
+            for d in cfg.nodes:
+                if isinstance(d, (str, Assume)) or d is stmt:
+                    continue
+                from ..cfg import stmt_defs
+                if nm not in stmt_defs(d):
+                    continue
+                if cfg.reachable(a, d, avoiding=[a.owner]) and cfg.reachable(d, stmt, avoiding=[a.owner]):
+                    return None
+        out.append((a.test, a.polarity, a.owner))
+    return out
+
+
+def _atoms(pc):
+    """Path condition as a flat conjunction of Cmp atoms (None: not a pure
+    conjunction of comparisons)."""
+    if pc is None:
+        return None
+    out = []
+    for t, pol, _ in pc:
+        c = conjuncts(t, pol)
+        if c is None or not all(isinstance(x, Cmp) for x in c):
+            return None
+        out += c
+    return out
+
+
+def _updates(region, name, skip=()):
+    """Assign/AugAssign statements inside `region` that rebind `name`."""
+    out = []
+    for s in walk_local(region):
+        if s in skip:
+            continue
+        if isinstance(s, ast.Assign) and any(name in target_names(t) for t in s.targets):
+            out.append(s)
+        elif isinstance(s, (ast.AugAssign, ast.AnnAssign)) and name in target_names(s.target):
+            out.append(s)
+    return out
+
+
+def _loop_shape(fi, loop):
+    """(collection expr, index name or None, element texts) of a for loop
+    `for e in X` / `for i, e in enumerate(X)` / `for i in range(len(X))`."""
+    it, tg = loop.iter, loop.target
+    if isinstance(it, ast.Call) and call_name(it) == 'enumerate' and len(it.args) == 1 and not it.keywords \
+            and isinstance(tg, ast.Tuple) and len(tg.elts) == 2 and all(isinstance(e, ast.Name) for e in tg.elts):
+        coll = xt(fi, it.args[0])
+        return coll, tg.elts[0].id, {tg.elts[1].id, C('%s[%s]' % (coll, tg.elts[0].id))}
+    if isinstance(it, ast.Call) and call_name(it) == 'range' and len(it.args) == 1 and isinstance(tg, ast.Name):
+        m = match('len(_X)', xp(fi, it.args[0]))
+        if m is None:
+            m = match('_X.shape[0]', xp(fi, it.args[0]))
+        if m is not None:
+            coll = ct(m['_X'])
+            return coll, tg.id, {C('%s[%s]' % (coll, tg.id))}
+        return None
+    if isinstance(tg, ast.Name):
+        return xt(fi, it), None, {tg.id}
+    return None
+
+
+def _returned_name(fi, fn, allow=()):
+    """Name of the local object every return statement returns (also through
+    np.array(x) / np.asarray(x) / list(x)); None if not uniform."""
+    names = set()
+    for r in returns_of(fn):
+        if r.value is None:
+            return None
+        v = canon(r.value)
+        for pat in ('_X.copy()', 'np.asarray(_X)', 'list(_X)', 'np.array(_X)'):
+            m = match(pat, v)
+            if m is not None and isinstance(m['_X'], ast.Name):
+                v = m['_X']
+                break
+        if not isinstance(v, ast.Name):
+            return None
+        names.add(v.id)
+    return names.pop() if len(names) == 1 else None
+
+
+# ---------------------------------------------------------------------------
+# D1
 
 def d1_metric_arg_order(ck):
     rule = 'C10.D1.metric-args'
+    F = 'assign_to_nearest_center'
     mod = ck.repo.mod(CU)
-    fn = mod.func('assign_to_nearest_center')
+    fn = mod.func(F)
     ck.analysed(mod, fn)
+    fi = finfo(mod, fn)
     ps = params(fn)
+    data, centers, metric = ps[0], ps[1], ps[2]
     n = 0
-    for loop in [l for l in walk_local(fn) if isinstance(l, ast.For)]:
-        it = loop.iter
-        if not (isinstance(it, ast.Call) and call_name(it) == 'enumerate' and it.args
-                and isinstance(loop.target, ast.Tuple) and len(loop.target.elts) == 2):
+    loops_with_metric = []
+    for c in calls_in(fn):
+        if not (isinstance(c.func, ast.Name) and xt(fi, c.func) == metric):
             continue
-        coll = u(it.args[0])
-        elem = u(loop.target.elts[1])
-        other = [p for p in ps[:2] if p != coll]
-        for c in calls_in(loop):
-            if u(c.func) != ps[2]:
-                continue
-            n += 1
-            ok = len(c.args) == 2 and u(c.args[1]) == elem and other and u(c.args[0]) == other[0]
-            ck.check(ok, rule, mod, c, 'assign_to_nearest_center',
-                     'for _, %s in enumerate(%s): %s' % (elem, coll, u(c)),
-                     'metric(<collection %s>, <single %s>)' % (other[0] if other else '?', elem),
-                     'the metric takes (many items, one item): while iterating over `%s` the '
-                     'call must be %s(%s, %s); swapped arguments make md.rmsd-style metrics '
-                     'return distances to the wrong reference' % (coll, ps[2], other[0] if other else '?', elem))
+        loop = _enclosing(mod, c, (ast.For,), stop=fn)
+        if loop is None:
+            continue        # a call outside any sweep: not the idiom this rule decides (floor)
+        shape = _loop_shape(fi, loop)
+        if shape is None or shape[0] not in (data, centers):
+            continue
+        coll, idx, elems = shape
+        other = centers if coll == data else data
+        n += 1
+        loops_with_metric.append(loop)
+        construct = 'for %s in %s: %s' % (u(loop.target), u(loop.iter), u(c))
+        if c.keywords or len(c.args) != 2 or any(isinstance(a, ast.Starred) for a in c.args):
+            ck.missing(rule, 'metric call with keyword/star arguments at %s: %s' % (mod.loc(c), u(c)))
+            continue
+        a0, a1 = xt(fi, c.args[0]), xt(fi, c.args[1])
+        ok = a0 == other and a1 in elems
+        scope = {data, centers} | {idx or ''} | {e for e in elems if e.isidentifier()}
+        _three(ck, ok, ast.Tuple(elts=[xp(fi, c.args[0]), xp(fi, c.args[1])], ctx=ast.Load()), scope,
+               rule, mod, c, F, construct,
+               'metric(<collection %s>, <single %s>)' % (other, sorted(elems)[0]),
+               'the metric takes (many items, one item): while iterating over `%s` the '
+               'call must be %s(%s, %s); swapped arguments make md.rmsd-style metrics '
+               'return distances to the wrong reference' % (coll, metric, other, sorted(elems, key=len)[0]))
     ck.floor(rule, n, 2, 'metric calls in assign_to_nearest_center')
-    # initial state: labels zeros(int), distances +inf
-    for name, want in (('distances', 'np.inf'),):
-        fills = [c for c in calls_in(fn) if isinstance(c.func, ast.Attribute) and c.func.attr == 'fill'
-                 and u(c.func.value) == name]
-        full = [s for s in assigns_to(fn, name) if isinstance(s, ast.Assign) and isinstance(s.value, ast.Call)
-                and call_name(s.value) == 'np.full']
-        ok = any(u(c.args[0]) == want for c in fills if c.args) or any(
-            len(s.value.args) > 1 and u(s.value.args[1]) == want for s in full)
-        ck.check(ok, 'C10.D1.init', mod, fn, 'assign_to_nearest_center', '%s starts at %s' % (name, want),
-                 'running minimum starts at +inf', 'running-minimum distances must start at +inf for every frame')
+    _d1_init(ck, mod, fn, fi, ps, loops_with_metric)
+
+
+def _d1_init(ck, mod, fn, fi, ps, loops):
+    """The running-minimum array (second component of the returned pair)
+    starts at +inf for every frame before the first sweep."""
+    rule = 'C10.D1.init'
+    F = 'assign_to_nearest_center'
+    name = 'distances'
+    for r in returns_of(fn):
+        v = r.value
+        if isinstance(v, ast.Tuple) and len(v.elts) == 2 and isinstance(v.elts[1], ast.Name):
+            name = v.elts[1].id
+    want = 'running-minimum distances must start at +inf for every frame'
+    construct = '%s starts at np.inf' % name
+    defs = [s for s in assigns_to(fn, name) if isinstance(s, ast.Assign) and
+            not any(_inside(s, l) for l in loops) and fi.def_value(s, name) is not None]
+    if len(defs) != 1:
+        ck.missing(rule, 'single allocation of the distance array `%s` before the sweeps' % name)
+        return
+    d0 = defs[0]
+    if not all(fi.cfg.dominates(d0, l) for l in loops):
+        ck.missing(rule, 'allocation of `%s` does not dominate the sweeps' % name)
+        return
+    v = xp(fi, fi.def_value(d0, name))
+    full = []
+    for inf in INF:
+        full += ['np.full(_N, %s)' % inf, 'np.full(_N, %s, dtype=_T)' % inf, 'np.full(_N, %s, _T)' % inf,
+                 'np.full(shape=_N, fill_value=%s)' % inf, 'np.full(shape=_N, fill_value=%s, dtype=_T)' % inf,
+                 'np.full(_N, fill_value=%s)' % inf, 'np.full(_N, fill_value=%s, dtype=_T)' % inf,
+                 'np.ones(_N) * %s' % inf, '%s * np.ones(_N)' % inf, 'np.zeros(_N) + %s' % inf,
+                 '%s + np.zeros(_N)' % inf, 'np.repeat(%s, _N)' % inf, 'np.full_like(_N, %s, dtype=_T)' % inf,
+                 'np.ones(_N, dtype=_T) * %s' % inf, '%s * np.ones(_N, dtype=_T)' % inf]
+    if classify(v, full)[0] == 'match':
+        ck.ok(rule, mod, d0, construct, 'running minimum starts at +inf')
+        return
+    alloc = classify(v, ['np.empty(_N)', 'np.empty(_N, dtype=_T)', 'np.empty(_N, _T)', 'np.zeros(_N)',
+                         'np.zeros(_N, dtype=_T)', 'np.ones(_N)', 'np.ones(_N, dtype=_T)', 'np.empty_like(_N)',
+                         'np.empty_like(_N, dtype=_T)', 'np.zeros_like(_N, dtype=_T)', 'np.empty(shape=_N, dtype=_T)'])[0] == 'match'
+    if alloc:
+        # a whole-array fill that dominates every sweep: x.fill(v) / x[:] = v / x[...] = v
+        fills = []
+        for c in calls_in(fn):
+            if isinstance(c.func, ast.Attribute) and c.func.attr == 'fill' and isinstance(c.func.value, ast.Name) \
+                    and c.func.value.id == name and len(c.args) == 1:
+                fills.append((fi.stmt(c), c.args[0]))
+        for s, t in subscript_stores(fn, name):
+            sl = t.slice
+            whole = (isinstance(sl, ast.Slice) and sl.lower is None and sl.upper is None and sl.step is None) or \
+                (isinstance(sl, ast.Constant) and sl.value is Ellipsis)
+            if whole and isinstance(s, ast.Assign):
+                fills.append((s, s.value))
+        fills = [(s, val) for s, val in fills if s is not None and not any(_inside(s, l) for l in loops)
+                 and all(fi.cfg.dominates(s, l) for l in loops) and fi.cfg.dominates(d0, s)]
+        if fills:
+            s, val = fills[-1]
+            ok = xt(fi, val) in [C(i) for i in INF]
+            _three(ck, ok, xp(fi, val), set(ps), rule, mod, s, F, construct,
+                   'running minimum starts at +inf', want + ' (filled with %s)' % u(val))
+            return
+        ck.bad(rule, mod, d0, F, construct, want + ': `%s` is never filled before the first sweep' % u(d0))
+        return
+    ck.decide(classify(v, full, scope=set(ps)), rule, mod, d0, F, construct, 'running minimum starts at +inf', want)
+
+
+def _namedtuple_fields(mod, cls):
+    c = mod.classes.get(cls)
+    if c is None:
+        return None
+    for b in c.bases:
+        if isinstance(b, ast.Call) and (call_name(b) or '').split('.')[-1] == 'namedtuple' and len(b.args) >= 2:
+            f = b.args[1]
+            if isinstance(f, (ast.List, ast.Tuple)) and all(isinstance(e, ast.Constant) for e in f.elts):
+                return [e.value for e in f.elts]
+            if isinstance(f, ast.Constant) and isinstance(f.value, str):
+                return f.value.replace(',', ' ').split()
+    return None
 
 
 def d1_predict(ck):
     rule = 'C10.D1.predict'
+    F = 'MolecularClusterMixin.predict'
     mod = ck.repo.mod(CU)
-    fn = mod.func('MolecularClusterMixin.predict')
+    fn = mod.func(F)
     ck.analysed(mod, fn)
-    cs = [c for c in calls_in(fn) if (call_name(c) or '').endswith('assign_to_nearest_center')]
+    fi = finfo(mod, fn)
+    X = params(fn)[1]
+    cs = [c for c in calls_in(fn) if _is_call_to(c, 'assign_to_nearest_center')]
     if len(cs) != 1:
         ck.missing(rule, 'assign_to_nearest_center call in predict')
         return
     c = cs[0]
-    callee = mod.func('assign_to_nearest_center')
-    ps = params(callee)
-    bind = {ps[i]: a for i, a in enumerate(c.args)}
-    bind.update({k.arg: k.value for k in c.keywords})
-    ok = u(bind.get(ps[0])) == params(fn)[1] and u(bind.get(ps[1])) == 'self.centers_' \
-        and u(bind.get(ps[2])) == 'self.metric'
-    ck.check(ok, rule, mod, c, 'MolecularClusterMixin.predict', u(c),
-             'predict assigns the new data to the fitted centres with the fitted metric',
-             'predict must call assign_to_nearest_center(X, self.centers_, self.metric)')
-    # result built from the same pair
-    s = finfo(mod, fn).stmt(c)
-    if isinstance(s, ast.Assign) and isinstance(s.targets[0], ast.Tuple):
-        a, d = [u(e) for e in s.targets[0].elts]
-        cr = [x for x in calls_in(fn) if (call_name(x) or '').endswith('ClusterResult')]
-        for x in cr:
-            kws = {k.arg: u(k.value) for k in x.keywords}
-            ck.check(kws.get('assignments') == a and kws.get('distances') == d and
-                     kws.get('centers') == 'self.centers_', rule, mod, x,
-                     'MolecularClusterMixin.predict', u(x)[:160],
-                     'result carries the predicted labels/distances and the fitted centres',
-                     'predict result fields do not match the values it computed')
+    ps = params(mod.func('assign_to_nearest_center'))
+    bind = _bind(c, ps)
+    if bind is None or any(p not in bind for p in ps[:3]):
+        ck.missing(rule, 'arguments of the assign_to_nearest_center call in predict: %s' % u(c)[:120])
+        return
+    # the fitted centres: self.centers_ or what that property returns
+    ctrs = {'self.centers_'}
+    prop = mod.functions.get('MolecularClusterMixin.centers_')
+    if prop is not None and len(returns_of(prop)) == 1 and returns_of(prop)[0].value is not None and \
+            params(prop) == ['self'] and len([x for x in prop.body if not isinstance(x, (ast.Expr, ast.Pass))]) == 1:
+        ctrs.add(ct(returns_of(prop)[0].value))
+    got = [xt(fi, bind[p]) for p in ps[:3]]
+    ok = got[0] == X and got[1] in ctrs and got[2] == 'self.metric'
+    _three(ck, ok, ast.Tuple(elts=[xp(fi, bind[p]) for p in ps[:3]], ctx=ast.Load()), {'self', X},
+           rule, mod, c, F, u(c),
+           'predict assigns the new data to the fitted centres with the fitted metric',
+           'predict must call assign_to_nearest_center(X, self.centers_, self.metric)')
+    # the returned result is built from the pair that call returned and the fitted centres
+    s = fi.stmt(c)
+    pair = None
+    if isinstance(s, ast.Assign) and s.value is c and len(s.targets) == 1:
+        t = s.targets[0]
+        if isinstance(t, ast.Tuple) and len(t.elts) == 2 and all(isinstance(e, ast.Name) for e in t.elts):
+            pair = ({t.elts[0].id}, {t.elts[1].id})
+        elif isinstance(t, ast.Name):
+            pair = ({'%s[0]' % t.id}, {'%s[1]' % t.id})
+    fields = _namedtuple_fields(mod, 'ClusterResult')
+    rets = returns_of(fn)
+    if pair is None or fields is None or not rets:
+        ck.missing(rule, 'unpacking of the (assignments, distances) pair / ClusterResult fields in predict')
+        return
+    allow = ('ClusterResult', 'find_cluster_centers')
+    for r in rets:
+        x = xp(fi, r.value, allow=allow, stop=tuple(n for p in pair for n in p if n.isidentifier()))
+        if not _is_call_to(x, 'ClusterResult'):
+            ck.missing(rule, 'value returned by predict is not a ClusterResult(...) call: %s' % u(x)[:120])
+            continue
+        kws = _bind(x, fields)
+        if kws is None:
+            ck.missing(rule, 'arguments of ClusterResult(...) in predict')
+            continue
+        a, d, ctr = ct(kws.get('assignments')), ct(kws.get('distances')), ct(kws.get('centers'))
+        ok = a in pair[0] and d in pair[1] and ctr in ctrs
+        names = {'self', X} | {n.split('[')[0] for p in pair for n in p}
+        _three(ck, ok, ast.Tuple(elts=[kws.get(k) or ast.Constant(value=None) for k in ('assignments', 'distances', 'centers')], ctx=ast.Load()),
+               names, rule, mod, r, F, u(x)[:160],
+               'result carries the predicted labels/distances and the fitted centres',
+               'predict result fields do not match the values it computed')
+        ci = kws.get('center_indices')
+        if _is_call_to(ci, 'find_cluster_centers'):
+            b = _bind(ci, params(mod.func('find_cluster_centers')))
+            if b is not None and set(b) == {'assignments', 'distances'}:
+                ok = ct(b['assignments']) in pair[0] and ct(b['distances']) in pair[1]
+                _three(ck, ok, ast.Tuple(elts=[b['assignments'], b['distances']], ctx=ast.Load()), names,
+                       rule + '.centers', mod, r, F, u(ci),
+                       'centre indices are found from the same labels/distances pair',
+                       'find_cluster_centers must receive (assignments, distances) as returned by assign_to_nearest_center, in that order')
+
+
+# ---------------------------------------------------------------------------
+# D2
+
+_D2_ALLOW = ('partition_list', 'partition_indices', 'RaggedArray', 'ClusterResult')
+
+
+def _only_raises(node):
+    body = [s for s in node.body if not isinstance(s, (ast.Expr, ast.Pass))]
+    return not node.orelse and len(body) == 1 and isinstance(body[0], ast.Raise)
+
+
+def _value_on(fi, fn, node, taken, allow):
+    """The (expanded) value the function returns when the branch `taken` of
+    the if-statement `node` is executed: either the return inside that branch,
+    or the single return after the if with the names the branch assigns
+    replaced by what it assigns to them."""
+    B = node.body if taken else node.orelse
+    other = node.orelse if taken else node.body
+    rets_in = [x for s in B for x in ast.walk(s) if isinstance(x, ast.Return)]
+    if len(rets_in) == 1:
+        return xp(fi, rets_in[0].value, allow)
+    if rets_in:
+        return None
+    outside = [r for r in returns_of(fn) if not _inside(r, node) and fi.cfg.reachable(node, r)]
+    if len(outside) != 1 or outside[0].value is None:
+        return None
+    r = outside[0]
+    failed = []
+
+    def on_name(e):
+        if not isinstance(e.ctx, ast.Load):
+            return ast.Name(id=e.id, ctx=e.ctx)
+        defs = fi.rd.defs_at(r, e.id)
+        sites = [d for d in defs if d not in ('PARAM', 'UNBOUND')]
+        in_b = [d for d in sites if any(_inside(d, s) for s in B)]
+        in_o = [d for d in sites if any(_inside(d, s) for s in other)]
+        if not in_b and not in_o:
+            return xp(fi, e, allow)
+        if 'UNBOUND' in defs and not in_b:
+            failed.append(e.id)
+            return ast.Name(id=e.id, ctx=e.ctx)
+        pre = [d for d in defs if d not in in_b and d not in in_o]
+        pick = in_b if in_b else pre
+        if len(pick) != 1 or pick[0] in ('PARAM', 'UNBOUND'):
+            if len(pick) == 1 and pick[0] == 'PARAM':
+                return ast.Name(id=e.id, ctx=e.ctx)
+            failed.append(e.id)
+            return ast.Name(id=e.id, ctx=e.ctx)
+        v = fi.def_value(pick[0], e.id)
+        if v is None or not _relaxed_pure(v, allow):
+            failed.append(e.id)
+            return ast.Name(id=e.id, ctx=e.ctx)
+        return xp(fi, v, allow)
+    val = _rebuild(r.value, on_name)
+    return None if failed else val
+
+
+def _split_ifexp(val):
+    """A value containing conditional expressions that all test the same
+    thing -> (test, value if true, value if false)."""
+    tests = [n for n in ast.walk(val) if isinstance(n, ast.IfExp)]
+    if not tests or len({ct(t.test) for t in tests}) != 1:
+        return None
+
+    class Pick(ast.NodeTransformer):
+        def __init__(self, which):
+            self.which = which
+
+        def visit_IfExp(self, n):
+            return self.visit(n.body if self.which else n.orelse)
+    import copy
+    return tests[0].test, Pick(True).visit(copy.deepcopy(val)), Pick(False).visit(copy.deepcopy(val))
 
 
 def d2_partition(ck):
     rule = 'C10.D2.partition'
+    F = 'ClusterResult.partition'
     mod = ck.repo.mod(CU)
-    fn = mod.func('ClusterResult.partition')
+    fn = mod.func(F)
     ck.analysed(mod, fn)
-    ifs = [n for n in walk_local(fn) if isinstance(n, ast.If)]
-    if len(ifs) != 1:
+    fi = finfo(mod, fn)
+    L = params(fn)[1]
+    ifs = [n for n in walk_local(fn) if isinstance(n, ast.If) and not _only_raises(n)]
+    node = None
+    if len(ifs) == 1:
+        node = ifs[0]
+        site = node
+        test = node.test
+        sq, rg = _value_on(fi, fn, node, True, _D2_ALLOW), _value_on(fi, fn, node, False, _D2_ALLOW)
+        t = xp(fi, test)
+    elif not ifs and len(returns_of(fn)) == 1 and returns_of(fn)[0].value is not None:
+        site = returns_of(fn)[0]
+        sp = _split_ifexp(xp(fi, site.value, _D2_ALLOW))
+        if sp is None:
+            ck.missing(rule, 'square/ragged branch in partition')
+            return
+        t, sq, rg = sp
+    else:
         ck.missing(rule, 'square/ragged branch in partition')
         return
-    node = ifs[0]
-    # the test variable: square = all(lengths[0] == l for l in lengths)
-    fi = finfo(mod, fn)
-    t = fi.resolve(node.test) if isinstance(node.test, ast.Name) else node.test
-    ok = isinstance(t, ast.Call) and call_name(t) == 'all' and 'lengths' in names_loaded(t)
-    ck.check(ok, rule + '.test', mod, node, 'ClusterResult.partition', u(t),
-             'rectangular output iff all lengths are equal',
-             'the rectangular/ragged decision must be all(lengths[0] == l for l in lengths)')
-    def branch_result(body):
-        for s in body:
-            for x in ast.walk(s):
-                if isinstance(x, ast.Return) and isinstance(x.value, ast.Call):
-                    return x.value
-        return None
-    sq, rg = branch_result(node.body), branch_result(node.orelse)
     if sq is None or rg is None:
         ck.missing(rule, 'both branches must return a ClusterResult')
         return
-    ks, kr = ({k.arg: k.value for k in c.keywords} for c in (sq, rg))
-    ck.check(set(ks) == set(kr) == {'assignments', 'distances', 'center_indices', 'centers'} and
-             not sq.args and not rg.args, rule + '.fields', mod, node, 'ClusterResult.partition',
-             'fields %s / %s' % (sorted(ks), sorted(kr)), 'same four fields by keyword in both branches',
+    while isinstance(t, ast.UnaryOp) and isinstance(t.op, ast.Not):
+        t = t.operand
+        sq, rg = rg, sq
+    # --- the decision: rectangular iff all lengths are equal
+    forms = ['all((%s[0] == _X for _X in %s))' % (L, L), 'all((_X == %s[0] for _X in %s))' % (L, L),
+             'all([%s[0] == _X for _X in %s])' % (L, L), 'all([_X == %s[0] for _X in %s])' % (L, L),
+             'all((%s[-1] == _X for _X in %s))' % (L, L), 'all((_X == %s[-1] for _X in %s))' % (L, L),
+             'len(set(%s)) <= 1' % L, 'len(set(%s)) < 2' % L]
+    rebound = bool(assigns_to(fn, L))
+    bare = [c for c in ast.walk(t) if isinstance(c, ast.Compare) and
+            any(isinstance(x, ast.Name) and x.id == L for x in [c.left] + list(c.comparators))]
+    if bare and not rebound:
+        ck.bad(rule + '.test', mod, site, F, ct(t),
+               'the rectangular/ragged decision must be all(lengths[0] == l for l in lengths): `%s` compares the '
+               'parameter `%s` itself, which is elementwise only for an ndarray; for a list/tuple of lengths the '
+               'comparison is a plain False/True and equal-length data are sent down the ragged branch' % (u(bare[0]), L))
+    else:
+        ck.decide(classify(t, forms, near=2), rule + '.test', mod, site, F, ct(t),
+                  'rectangular output iff all lengths are equal',
+                  'the rectangular/ragged decision must be all(lengths[0] == l for l in lengths)')
+    # --- both results are ClusterResult(...) with the same fields
+    fields = _namedtuple_fields(mod, 'ClusterResult')
+    if fields is None or not (_is_call_to(sq, 'ClusterResult') and _is_call_to(rg, 'ClusterResult')):
+        ck.missing(rule, 'both branches must return a ClusterResult')
+        return
+    ks, kr = _bind(sq, fields), _bind(rg, fields)
+    if ks is None or kr is None:
+        ck.missing(rule, 'arguments of the ClusterResult(...) calls in partition')
+        return
+    ck.check(set(ks) == set(kr) == set(fields), rule + '.fields', mod, site, F,
+             'fields %s / %s' % (sorted(ks), sorted(kr)), 'same four fields in both branches',
              'the two branches build different field sets')
+    scope = {'self', L}
     for f in ('center_indices', 'centers'):
-        ck.check(f in ks and f in kr and u(ks[f]) == u(kr[f]), rule + '.siblings', mod, node,
-                 'ClusterResult.partition', '%s: %s / %s' % (f, u(ks.get(f)), u(kr.get(f))),
-                 'identical in both branches', 'field `%s` differs between the rectangular and ragged branch' % f)
+        if f in ks and f in kr:
+            ck.check(ct(ks[f]) == ct(kr[f]), rule + '.siblings', mod, site, F,
+                     '%s: %s / %s' % (f, ct(ks[f]), ct(kr[f])),
+                     'identical in both branches', 'field `%s` differs between the rectangular and ragged branch' % f)
     ci = ks.get('center_indices')
-    ok = isinstance(ci, ast.Call) and (call_name(ci) or '').endswith('partition_indices') and \
-        [u(a) for a in ci.args] == ['self.center_indices', 'lengths']
-    ck.check(ok, rule + '.indices', mod, node, 'ClusterResult.partition', u(ci),
-             'centre indices converted with the same lengths',
-             'center_indices must be partition_indices(self.center_indices, lengths)')
-    ck.check(u(ks.get('centers')) == 'self.centers', rule + '.centers', mod, node,
-             'ClusterResult.partition', u(ks.get('centers')), 'centres passed through', 'centres must be passed through unchanged')
+    ok = False
+    if _is_call_to(ci, 'partition_indices'):
+        b = _bind(ci, params(ck.repo.mod(RA).func('partition_indices')))
+        pi_params = params(ck.repo.mod(RA).func('partition_indices'))
+        ok = b is not None and len(b) == 2 and ct(b.get(pi_params[0])) == 'self.center_indices' and ct(b.get(pi_params[1])) == L
+    _three(ck, ok, ci if _is_call_to(ci, 'partition_indices') else None, scope | {'ra'}, rule + '.indices', mod, site, F, ct(ci),
+           'centre indices converted with the same lengths',
+           'center_indices must be partition_indices(self.center_indices, lengths)', allow=_D2_ALLOW)
+    ctr = ks.get('centers')
+    # positively wrong: another attribute of self / a constant; anything else (a copy, a view) is not decided
+    ctr_wrong = (isinstance(ctr, ast.Attribute) and ct(ctr) != 'self.centers' and ct(ctr.value) == 'self') or isinstance(ctr, ast.Constant)
+    _three(ck, ct(ctr) == 'self.centers', ctr if ctr_wrong else None, scope, rule + '.centers', mod, site, F,
+           ct(ctr), 'centres passed through', 'centres must be passed through unchanged')
+    pl_params = params(ck.repo.mod(RA).func('partition_list'))
+    ra_params = [p for p in params(ck.repo.mod(RA).func('RaggedArray.__init__')) if p != 'self']
+    helpers = {'ra'}
+    def square_shape(a):
+        """np.array(partition_list(...)) & equivalent spellings -> the partition_list call"""
+        pl = None
+        if isinstance(a, ast.Call) and call_name(a) in ('np.array', 'np.asarray', 'numpy.array', 'numpy.asarray') \
+                and len(a.args) == 1 and not a.keywords:
+            pl = a.args[0]
+        elif isinstance(a, ast.Call) and isinstance(a.func, ast.Attribute) and a.func.attr == 'copy' and not a.args:
+            pl = a.func.value       # front-end spelling of np.array(<name>)
+        return pl if _is_call_to(pl, 'partition_list') else None
+
     for f in ('assignments', 'distances'):
         a, b = ks.get(f), kr.get(f)
-        ok_sq = isinstance(a, ast.Call) and call_name(a) == 'np.array' and a.args and isinstance(a.args[0], ast.Call) \
-            and (call_name(a.args[0]) or '').endswith('partition_list') and \
-            [u(x) for x in a.args[0].args] == ['self.%s' % f, 'lengths']
-        ok_rg = isinstance(b, ast.Call) and (call_name(b) or '').endswith('RaggedArray') and b.args and \
-            u(b.args[0]) == 'self.%s' % f and u(kwarg(b, 'lengths')) == 'lengths'
-        ck.check(ok_sq, rule + '.square', mod, node, 'ClusterResult.partition', '%s=%s' % (f, u(a)),
-                 'rectangular branch: np.array(partition_list(self.%s, lengths))' % f,
-                 'rectangular branch must split self.%s by lengths' % f)
-        ck.check(ok_rg, rule + '.ragged', mod, node, 'ClusterResult.partition', '%s=%s' % (f, u(b)),
-                 'ragged branch: RaggedArray(self.%s, lengths=lengths)' % f,
-                 'ragged branch must wrap self.%s with lengths=lengths' % f)
+        ok_sq = False
+        pl = square_shape(a)
+        if pl is not None:
+            bb = _bind(pl, pl_params)
+            ok_sq = bb is not None and len(bb) == 2 and ct(bb.get(pl_params[0])) == 'self.%s' % f and \
+                ct(bb.get(pl_params[1])) == L
+        ok_rg = False
+        undecided = False
+        if _is_call_to(b, 'RaggedArray'):
+            bb = _bind(b, ra_params)
+            if bb is not None and 'array' in bb and 'lengths' in bb:
+                ok_rg = ct(bb['array']) == 'self.%s' % f and ct(bb['lengths']) == L
+                extra = {k: v for k, v in bb.items() if k not in ('array', 'lengths')}
+                if any(const_value(v) is not True for v in extra.values()):
+                    undecided = True      # copy=False / error_checking=False: aliasing/validation contract, not decided here
+        # a violation only for a RECOGNISED container with wrong operands, or the sibling's container; another
+        # way of stacking the pieces (np.vstack, ...) is not decided here
+        a_dec = a if (square_shape(a) is not None or _is_call_to(a, 'RaggedArray')) else None
+        b_dec = b if (square_shape(b) is not None or _is_call_to(b, 'RaggedArray')) else None
+        _three(ck, ok_sq, a_dec, scope | helpers, rule + '.square', mod, site, F, '%s=%s' % (f, ct(a)),
+               'rectangular branch: np.array(partition_list(self.%s, lengths))' % f,
+               'rectangular branch must split self.%s by lengths' % f, allow=_D2_ALLOW)
+        if undecided and ok_rg:
+            ck.missing(rule + '.ragged', 'RaggedArray(...) called with non-default copy/error_checking: %s' % ct(b))
+        else:
+            _three(ck, ok_rg, b_dec, scope | helpers, rule + '.ragged', mod, site, F, '%s=%s' % (f, ct(b)),
+                   'ragged branch: RaggedArray(self.%s, lengths=lengths)' % f,
+                   'ragged branch must wrap self.%s with lengths=lengths' % f, allow=_D2_ALLOW)
 
+
+# ---------------------------------------------------------------------------
+# D3
 
 def d3_partition_indices(ck):
     rule = 'C10.D3.partition-indices'
+    F = 'partition_indices'
     mod = ck.repo.mod(RA)
-    fn = mod.func('partition_indices')
+    fn = mod.func(F)
     ck.analysed(mod, fn)
-    outer = [l for l in walk_local(fn) if isinstance(l, ast.For)]
-    if len(outer) < 2:
+    fi = finfo(mod, fn)
+    cfg = fi.cfg
+    ps = params(fn)
+    fors = [l for l in walk_local(fn) if isinstance(l, ast.For)]
+    nest = [(o, i) for o in fors for i in fors if i is not o and _inside(i, o)]
+    if len(nest) != 1:
         ck.missing(rule, 'nested loops over indices and trajectory lengths')
         return
-    o, inner = outer[0], outer[1]
-    idx, tl = u(o.target), u(inner.target)
-    ck.check(u(o.iter) == params(fn)[0] and u(inner.iter) == params(fn)[1], rule, mod, o,
-             'partition_indices', 'for %s in %s: for %s in %s' % (idx, u(o.iter), tl, u(inner.iter)),
-             'each flat index is walked through the lengths in order', 'loops must iterate indices x traj_lengths')
-    ifs = [n for n in inner.body if isinstance(n, ast.If)]
-    if len(ifs) != 1:
-        ck.missing(rule, 'boundary test inside the lengths loop')
+    o, inner = nest[0]
+    so, si = _loop_shape(fi, o), _loop_shape(fi, inner)
+    if so is None or si is None or so[0] != ps[0] or si[0] != ps[1] or so[1] is not None or \
+            not isinstance(o.target, ast.Name):
+        ck.missing(rule, 'loops `for <index> in %s: for <len> in %s` (found for %s in %s: for %s in %s)' % (
+            ps[0], ps[1], u(o.target), u(o.iter), u(inner.target), u(inner.iter)))
         return
-    node = ifs[0]
-    cs = conjuncts(node.test, True)
-    ok = cs is not None and len(cs) == 1 and isinstance(cs[0], Cmp)
-    less = cs[0].as_less() if ok else None
-    ok = less is not None and u(less[0]) == idx and u(less[2]) == tl and less[1]
-    ck.check(ok, rule + '.boundary', mod, node, 'partition_indices', u(node.test),
-             'frame belongs to this trajectory iff index < traj_len (strict)',
-             'the trajectory owning a flat index is the first with traj_len > index (strict): '
-             'with >= the last frame+1 is attributed to the wrong trajectory / first frame of '
-             'the next trajectory is reported as frame len of the previous one')
-    # body: append((trj_index, index)); break
-    app = [c for c in calls_in(ast.Module(body=node.body, type_ignores=[])) if isinstance(c.func, ast.Attribute) and c.func.attr == 'append']
-    brk = any(isinstance(x, ast.Break) for x in node.body)
-    okp = len(app) == 1 and isinstance(app[0].args[0], ast.Tuple) and len(app[0].args[0].elts) == 2 and \
-        u(app[0].args[0].elts[1]) == idx
-    trj = u(app[0].args[0].elts[0]) if okp else None
-    ck.check(okp and brk, rule + '.emit', mod, node, 'partition_indices', '; '.join(u(x) for x in node.body),
-             'emit (trajectory, frame) once and stop', 'must append (trj_index, index) and break')
-    # else: index -= traj_len ; trj_index += 1
-    els = node.orelse
-    dec = [s for s in els if isinstance(s, ast.AugAssign) and isinstance(s.op, ast.Sub) and u(s.target) == idx and u(s.value) == tl]
-    inc = [s for s in els if isinstance(s, ast.AugAssign) and isinstance(s.op, ast.Add) and u(s.target) == trj and u(s.value) == '1']
-    ck.check(len(dec) == 1 and len(inc) == 1, rule + '.advance', mod, node, 'partition_indices',
-             '; '.join(u(x) for x in els), 'skip a whole trajectory: index -= traj_len and trj_index += 1 together',
-             'the complementary branch must subtract traj_len from the index AND advance the trajectory counter')
-    # trj_index reset per index
-    resets = [s for s in o.body if isinstance(s, ast.Assign) and u(s.targets[0]) == trj and u(s.value) == '0']
-    ck.check(len(resets) == 1, rule + '.reset', mod, o, 'partition_indices', '%s = 0 per index' % trj,
-             'trajectory counter restarts for each index', 'trajectory counter must be reset to 0 for every flat index')
+    idx = o.target.id
+    t_enum, tl_forms = si[1], si[2]
+    tl_names = {n for f in tl_forms for n in names_loaded(ast.parse(f).body[0].value)}
+    ck.ok(rule, mod, o, 'for %s in %s: for %s in %s' % (idx, u(o.iter), u(inner.target), u(inner.iter)),
+          'each flat index is walked through the lengths in order')
+    # --- the emit: <out>.append((<trajectory>, <frame>)) inside the lengths loop
+    apps = [c for c in calls_in(inner) if isinstance(c.func, ast.Attribute) and c.func.attr == 'append'
+            and isinstance(c.func.value, ast.Name) and len(c.args) == 1 and not c.keywords]
+    if len(apps) != 1:
+        ck.missing(rule, 'single <out>.append((trajectory, frame)) inside the lengths loop')
+        return
+    app = apps[0]
+    app_s = fi.stmt(app)
+    pair = app.args[0] if isinstance(app.args[0], ast.Tuple) else xp(fi, app.args[0])
+    if not (isinstance(pair, ast.Tuple) and len(pair.elts) == 2 and all(isinstance(e, ast.Name) for e in pair.elts)):
+        ck.missing(rule, 'appended value is not a (trajectory counter, frame) pair of names: %s' % u(pair)[:120])
+        return
+    T, cur = pair.elts[0].id, pair.elts[1].id
+
+    def is_index(name):
+        """the outer loop variable or a per-index working copy of it"""
+        if name == idx:
+            return True
+        cp = [s for s in _updates(o, name) if not _inside(s, inner)]
+        return len(cp) == 1 and isinstance(cp[0], ast.Assign) and fi.def_value(cp[0], name) is not None and \
+            xt(fi, fi.def_value(cp[0], name)) in (idx, 'int(%s)' % idx) and not cfg.reachable(o, inner, avoiding=[cp[0]])
+    if not is_index(cur):
+        if is_index(T):
+            ck.bad(rule + '.emit', mod, app_s, F, u(app_s),
+                   'the pair must be (trajectory, frame): the (reduced) flat index `%s` is stored as the trajectory component' % T)
+            return
+        ck.missing(rule, 'frame component `%s` of the appended pair is neither the loop variable `%s` nor a per-index copy of it' % (cur, idx))
+        return
+    # --- the boundary test: condition under which the pair is emitted
+    at = _atoms(path_condition(fi, app_s, inner))
+    if at is None:
+        ck.missing(rule + '.boundary', 'condition guarding the append is not a conjunction of comparisons')
+        return
+    cond = ' and '.join(repr(c) for c in at) or '<unconditional>'
+    emit = None
+    if len(at) == 1:
+        c = at[0]
+        less = c.as_less()
+        sides = (xt(fi, c.lhs), xt(fi, c.rhs))
+        if less is not None and xt(fi, less[0]) == cur and xt(fi, less[2]) in tl_forms:
+            emit = c
+            ck.check(less[1], rule + '.boundary', mod, app_s, F, cond,
+                     'frame belongs to this trajectory iff index < traj_len (strict)',
+                     'the trajectory owning a flat index is the first with traj_len > index (strict): '
+                     'with >= the last frame+1 is attributed to the wrong trajectory / first frame of '
+                     'the next trajectory is reported as frame len of the previous one')
+        elif set(sides) <= ({cur, T} | tl_forms):
+            ck.bad(rule + '.boundary', mod, app_s, F, cond,
+                   'the pair must be emitted for the first trajectory with %s < traj_len (strict); found the test `%s`' % (cur, cond))
+        else:
+            ck.missing(rule + '.boundary', 'boundary test not recognised: %s' % cond)
+    elif not at:
+        ck.bad(rule + '.boundary', mod, app_s, F, cond,
+               'the pair is appended unconditionally: it must be emitted only for the first trajectory with index < traj_len')
+    else:
+        ck.missing(rule + '.boundary', 'boundary test not recognised: %s' % cond)
+    # emitted once per index: after the append the lengths loop is left
+    ret_name = app.func.value.id
+    ck.check(not cfg.reachable(app_s, inner, avoiding=[o]), rule + '.emit', mod, app_s, F,
+             '%s; then leave the lengths loop' % u(app_s),
+             'emit (trajectory, frame) once and stop', 'must append (trj_index, index) and break: the walk over the '
+             'lengths continues after the pair was emitted')
+    if _returned_name(fi, fn) != ret_name:
+        ck.missing(rule + '.emit', 'the list receiving the pairs (`%s`) is not what the function returns' % ret_name)
+    else:
+        init = assigns_to(fn, ret_name)
+        if len(init) == 1 and isinstance(init[0], ast.Assign) and ct(init[0].value) in ('[]', 'list()'):
+            ck.check(not _inside(init[0], o), rule + '.emit', mod, init[0], F, u(init[0]),
+                     'one result list for all indices', 'the result list is re-created for every index: only the last pair survives')
+        else:
+            ck.missing(rule + '.emit', 'initialisation of the result list `%s`' % ret_name)
+    if emit is None:
+        return
+    ekey, epol = canon_atom(emit)
+
+    def complementary(s):
+        a = _atoms(path_condition(fi, s, inner, fresh=False))
+        if a is None:
+            return None
+        return len(a) == 1 and canon_atom(a[0]) == (ekey, not epol)
+    # --- the advance: index -= traj_len and trj_index += 1, both exactly when the test fails
+    decs = _updates(inner, cur)
+    tl_one = sorted(tl_forms, key=len)[0]
+    adv_construct = '; '.join(u(s) for s in decs + (_updates(inner, T) if T != t_enum else []))
+    verdicts = []
+    if len(decs) == 1:
+        s = decs[0]
+        if isinstance(s, ast.AugAssign):
+            good = isinstance(s.op, ast.Sub) and xt(fi, s.value) in tl_forms
+            val = ast.BinOp(left=ast.Name(id=cur, ctx=ast.Load()), op=s.op, right=xp(fi, s.value))
+        else:
+            val = xp(fi, fi.def_value(s, cur), stop=(cur,)) if fi.def_value(s, cur) is not None else None
+            good = val is not None and ct(val) in [C('%s - %s' % (cur, f)) for f in tl_forms]
+        comp = complementary(s)
+        if good and comp:
+            verdicts.append('ok')
+        elif comp is None or (not good and not _closed(val, {cur, T} | tl_names)):
+            verdicts.append('far')
+        else:
+            verdicts.append('bad')
+    else:
+        verdicts.append('bad')      # the running index is never / several times reduced inside the located walk
+    if T == t_enum:
+        others = [s for s in _updates(o, T)]
+        verdicts.append('ok' if not others else 'bad')
+    else:
+        incs = _updates(inner, T)
+        if len(incs) == 1:
+            s = incs[0]
+            if isinstance(s, ast.AugAssign):
+                good = isinstance(s.op, ast.Add) and const_value(s.value) == 1
+                val = ast.BinOp(left=ast.Name(id=T, ctx=ast.Load()), op=s.op, right=xp(fi, s.value))
+            else:
+                val = xp(fi, fi.def_value(s, T), stop=(T,)) if fi.def_value(s, T) is not None else None
+                good = val is not None and ct(val) in (C('%s + 1' % T), C('1 + %s' % T))
+            comp = complementary(s)
+            if good and comp:
+                verdicts.append('ok')
+            elif comp is None or (not good and not _closed(val, {cur, T} | tl_names)):
+                verdicts.append('far')
+            else:
+                verdicts.append('bad')
+        else:
+            verdicts.append('bad')
+    if 'bad' in verdicts:
+        ck.bad(rule + '.advance', mod, inner, F, adv_construct,
+               'the complementary branch must subtract traj_len from the index AND advance the trajectory counter '
+               '(exactly when the boundary test fails: %s -= %s and %s += 1 together)' % (cur, tl_one, T))
+    elif 'far' in verdicts:
+        ck.missing(rule + '.advance', 'update of `%s` / `%s` in the lengths loop not recognised: %s' % (cur, T, adv_construct))
+    else:
+        ck.ok(rule + '.advance', mod, inner, adv_construct,
+              'skip a whole trajectory: index -= traj_len and trj_index += 1 together')
+    # --- the trajectory counter restarts for each index
+    if T == t_enum:
+        ck.ok(rule + '.reset', mod, inner, '%s is the enumerate/range index of the lengths loop' % T,
+              'trajectory counter restarts for each index')
+    else:
+        resets = [s for s in _updates(o, T) if not _inside(s, inner) and isinstance(s, ast.Assign)
+                  and fi.def_value(s, T) is not None]
+        zero = [s for s in resets if const_value(fi.def_value(s, T)) == 0 and
+                type(const_value(fi.def_value(s, T))) is int and not cfg.reachable(o, inner, avoiding=[s])]
+        ck.check(len(zero) >= 1 and len(zero) == len(resets) and len(_updates(o, T)) == len(resets) + len(_updates(inner, T)),
+                 rule + '.reset', mod, o, F, '%s = 0 per index' % T,
+                 'trajectory counter restarts for each index', 'trajectory counter must be reset to 0 for every flat index')
+
+
+# ---------------------------------------------------------------------------
+# D4
+
+def _members_cond(m):
+    """The boolean mask C of an index-list expression np.where(C)[0] & co."""
+    for pat in ('np.where(_C)[0]', 'np.nonzero(_C)[0]', '_C.nonzero()[0]', 'np.argwhere(_C).flatten()',
+                'np.argwhere(_C).ravel()', 'np.argwhere(_C)[:, 0]', 'np.where(_C)[0].flatten()'):
+        b = match(pat, m)
+        if b is not None:
+            return b['_C']
+    return None
 
 
 def d4_find_centers(ck):
     rule = 'C10.D4.find-centers'
+    F = 'find_cluster_centers'
     mod = ck.repo.mod(CU)
-    fn = mod.func('find_cluster_centers')
+    fn = mod.func(F)
     ck.analysed(mod, fn)
     fi = finfo(mod, fn)
-    loops = [l for l in walk_local(fn) if isinstance(l, ast.For)]
-    if not loops:
+    A, D = params(fn)[:2]
+    out = _returned_name(fi, fn)
+    fors = [l for l in walk_local(fn) if isinstance(l, ast.For)]
+    if not fors:
         ck.missing(rule, 'per-label loop')
         return
-    loop = loops[0]
-    # members = np.where(assignments == c)[0]
-    mem = None
-    for s in walk_local(loop):
-        if isinstance(s, ast.Assign) and isinstance(s.value, ast.Subscript) and \
-                isinstance(s.value.value, ast.Call) and call_name(s.value.value) == 'np.where':
-            mem = s
-    if mem is None:
-        # alternative idiom: argmin over the full array with non-members masked
-        alt = [s for s in walk_local(loop) if isinstance(s, ast.Assign) and isinstance(s.value, ast.Call) and
-               call_name(s.value) == 'np.where' and len(s.value.args) == 3]
-        am = [s for s in walk_local(loop) if isinstance(s, ast.Assign) and 'argmin' in u(s.value)]
-        if alt and am:
-            fill = alt[0].value.args[2]
-            cond = u(alt[0].value.args[0])
-            lab0 = u(loop.target.elts[1]) if isinstance(loop.target, ast.Tuple) else u(loop.target)
-            ok = u(fill) in ('np.inf', 'float("inf")', "float('inf')", 'math.inf') and cond in ('assignments == %s' % lab0, '%s == assignments' % lab0) \
-                and u(alt[0].value.args[1]) == 'distances'
-            ck.check(ok, rule + '.index-space', mod, alt[0], 'find_cluster_centers', u(alt[0]),
-                     'non-members are masked with +inf before the global argmin',
-                     'when the argmin runs over the whole array, frames of other labels must be masked with +inf: masking with a '
-                     'finite value (e.g. np.max(distances)) lets a NON-member win whenever the best member is as far as that value')
-            return
-        ck.missing(rule, 'members = np.where(assignments == label)[0]')
+    if out is None:
+        ck.missing(rule, 'the array of frame indices that find_cluster_centers returns')
         return
-    mname = u(mem.targets[0])
-    lab = u(loop.target.elts[1]) if isinstance(loop.target, ast.Tuple) else u(loop.target)
-    cond = u(mem.value.value.args[0])
-    ck.check(cond in ('assignments == %s' % lab, '%s == assignments' % lab) and u(mem.value.slice) == '0',
-             rule + '.members', mod, mem, 'find_cluster_centers', u(mem),
-             'members of the label', 'members must be np.where(assignments == %s)[0]' % lab)
-    # ind = members[np.argmin(distances[members])]
-    found = False
-    for s in walk_local(loop):
-        if isinstance(s, ast.Assign) and isinstance(s.value, ast.Subscript) and u(s.value.value) == mname:
-            inner = s.value.slice
-            ok = isinstance(inner, ast.Call) and call_name(inner) in ('np.argmin',) and \
-                u(inner.args[0]) == 'distances[%s]' % mname
-            if not ok and isinstance(inner, ast.Call) and isinstance(inner.func, ast.Attribute) \
-                    and inner.func.attr == 'argmin':
-                ok = u(inner.func.value) == 'distances[%s]' % mname
-            found = True
-            ck.check(ok, rule + '.index-space', mod, s, 'find_cluster_centers', u(s),
-                     'argmin over distances[members] mapped back through the same members',
-                     'the position returned by argmin is relative to the member subset: it must be '
-                     'np.argmin(distances[%s]) mapped back as %s[...]; found %s' % (mname, mname, u(s.value)))
-            ind = u(s.targets[0])
-            st = [x for x in walk_local(loop) if isinstance(x, ast.Assign) and isinstance(x.targets[0], ast.Subscript)
-                  and u(x.value) == ind]
-            pos = u(loop.target.elts[0]) if isinstance(loop.target, ast.Tuple) else None
-            ck.check(len(st) == 1 and u(st[0].targets[0].slice) == pos, rule + '.store', mod, s,
-                     'find_cluster_centers', u(st[0]) if st else ind,
-                     'stored at the position of the label', 'the frame index must be stored at the enumerate position of its label')
-    if not found:
-        ck.bad(rule + '.index-space', mod, loop, 'find_cluster_centers', u(loop)[:160],
+    # --- the emit: <out>[<pos>] = V  /  <out>.append(V)  inside the per-label loop
+    emits = []
+    for s, t in subscript_stores(fn, out):
+        if isinstance(s, ast.Assign) and len(s.targets) == 1 and any(_inside(s, l) for l in fors):
+            emits.append((s, t.slice, s.value))
+    for c in calls_in(fn):
+        if isinstance(c.func, ast.Attribute) and c.func.attr == 'append' and ct(c.func.value) == out \
+                and len(c.args) == 1 and any(_inside(c, l) for l in fors):
+            emits.append((fi.stmt(c), None, c.args[0]))
+    if len(emits) != 1:
+        ck.missing(rule, 'single store of the per-label frame index into `%s` inside the per-label loop (found %d)' % (out, len(emits)))
+        return
+    st, pos, val = emits[0]
+    loop = _enclosing(mod, st, (ast.For,), stop=fn)
+    shape = _loop_shape(fi, loop)
+    if shape is None:
+        ck.missing(rule, 'shape of the per-label loop: for %s in %s' % (u(loop.target), u(loop.iter)))
+        return
+    _, pidx, labs = shape
+    labs_n = {l for l in labs if l.isidentifier()}
+    lab_show = sorted(labs, key=len)[0]
+    # labels come from np.unique(assignments)
+    it = loop.iter
+    if isinstance(it, ast.Call) and call_name(it) == 'enumerate' and it.args:
+        it = it.args[0]
+    elif isinstance(it, ast.Call) and call_name(it) == 'range':
+        m = match('len(_X)', xp(fi, it.args[0])) or match('_X.shape[0]', xp(fi, it.args[0]))
+        it = m['_X'] if m else it
+    labels = xp(fi, it)
+    ck.decide(classify(labels, ['np.unique(%s)' % A, 'sorted(set(%s))' % A, 'np.unique(np.asarray(%s))' % A,
+                                'sorted(np.unique(%s))' % A], near=2),
+              rule + '.labels', mod, loop, F, ct(labels),
+              'one centre per label present', 'labels must come from np.unique(assignments)')
+    if pos is not None:
+        _three(ck, pidx is not None and xt(fi, pos) == pidx, xp(fi, pos), labs_n | {pidx or ''}, rule + '.store', mod, st, F, u(st),
+               'stored at the position of the label', 'the frame index must be stored at the enumerate position of its label')
+    else:
+        ck.ok(rule + '.store', mod, st, u(st), 'appended in label order')
+    # --- the value: members[argmin(distances[members])]
+    V = canon(xp(fi, val, strict=False))
+    for wrap in ('int(_V)',):
+        m = match(wrap, V)
+        if m is not None:
+            V = m['_V']
+    scope = {A, D} | labs_n
+    eq_ok = lambda cnd: cnd is not None and isinstance(cnd, ast.Compare) and len(cnd.ops) == 1 and \
+        isinstance(cnd.ops[0], ast.Eq) and {ct(cnd.left), ct(cnd.comparators[0])} in [{A, l} for l in labs]
+    construct = u(st)
+    m = match('_M[_D[_K].argmin()]', V) or match('_M[_D[_K].argsort()[0]]', V)
+    if m is not None and ct(m['_D']) == D:
+        M, K = m['_M'], m['_K']
+        cnd = _members_cond(M)
+        if cnd is None:
+            ck.decide(classify(M, ['np.where(%s == %s)[0]' % (A, lab_show)], near=2), rule + '.members', mod, st, F, ct(M),
+                      'members of the label', 'members must be np.where(assignments == %s)[0]' % lab_show)
+        else:
+            _three(ck, eq_ok(cnd), cnd, scope, rule + '.members', mod, st, F, ct(M),
+                   'members of the label', 'members must be np.where(assignments == %s)[0]' % lab_show)
+        w = match('_W[0]', M)
+        same = ct(K) == ct(M) or (cnd is not None and ct(K) == ct(cnd)) or \
+            (w is not None and isinstance(w['_W'], ast.Call) and ct(K) == ct(w['_W']))     # d[np.where(m)] == d[np.where(m)[0]] in 1-D
+        _three(ck, same, K, scope, rule + '.index-space', mod, st, F, construct,
+               'argmin over distances[members] mapped back through the same members',
+               'the position returned by argmin is relative to the member subset: it must be '
+               'np.argmin(distances[<members>]) mapped back as <members>[...] through the SAME index set; found %s' % ct(V))
+        return
+    m = match('np.where(_C, _D, _F).argmin()', V)
+    if m is not None and ct(m['_D']) == D:
+        # alternative idiom: argmin over the full array with non-members masked
+        ok = ct(m['_F']) in [C(i) for i in INF] and eq_ok(m['_C'])
+        _three(ck, ok, ast.Tuple(elts=[m['_C'], m['_F']], ctx=ast.Load()), scope, rule + '.index-space', mod, st, F, construct,
+               'non-members are masked with +inf before the global argmin',
+               'when the argmin runs over the whole array, frames of other labels must be masked with +inf: masking with a '
+               'finite value (e.g. np.max(distances)) lets a NON-member win whenever the best member is as far as that value')
+        return
+    m = match('_D[_K].argmin()', V)
+    if m is not None and ct(m['_D']) == D and _closed(m['_K'], scope):
+        ck.bad(rule + '.index-space', mod, st, F, construct,
                'no `members[argmin(distances[members])]` mapping found: a subset-relative argmin '
-               'would be stored as a frame index')
-    # unique labels
-    ok = any(isinstance(s, ast.Assign) and isinstance(s.value, ast.Call) and call_name(s.value) == 'np.unique'
-             and u(s.value.args[0]) == 'assignments' for s in walk_local(fn))
-    ck.check(ok, rule + '.labels', mod, fn, 'find_cluster_centers', 'np.unique(assignments)',
-             'one centre per label present', 'labels must come from np.unique(assignments)')
+               'would be stored as a frame index (%s)' % ct(V))
+        return
+    ck.decide(classify(V, ['_M[%s[_M].argmin()]' % D], near=2), rule + '.index-space', mod, st, F, construct,
+              'argmin over distances[members] mapped back through the same members',
+              'the stored frame index must be <members>[np.argmin(distances[<members>])] with <members> = '
+              'np.where(assignments == %s)[0]; found %s' % (lab_show, ct(V)))
 
+
+# ---------------------------------------------------------------------------
+# D5
 
 def d5_partition_list(ck):
     rule = 'C10.D5.partition-list'
+    F = 'partition_list'
     mod = ck.repo.mod(RA)
-    fn = mod.func('partition_list')
+    fn = mod.func(F)
     ck.analysed(mod, fn)
     fi = finfo(mod, fn)
-    ps = params(fn)
-    # guard raise
-    guards = [n for n in fn.body if isinstance(n, ast.If) and any(isinstance(x, ast.Raise) for x in n.body)]
-    ok = bool(guards) and 'sum' in u(guards[0].test) and ps[1] in names_loaded(guards[0].test) and \
-        'len(%s)' % ps[0] in u(guards[0].test) and '!=' in u(guards[0].test)
-    ck.check(ok, rule + '.guard', mod, guards[0] if guards else fn, 'partition_list',
-             u(guards[0].test) if guards else 'sum(lengths) != len(list)',
-             'sum of lengths must equal the data length, else raise',
-             'partition_list must reject lengths whose sum differs from len(list)')
-    loops = [l for l in walk_local(fn) if isinstance(l, ast.For)]
-    if not loops:
+    cfg = fi.cfg
+    lst, lens = params(fn)[:2]
+    # --- the guard: raise iff sum(lengths) != len(list)
+    sums = {C('np.sum(%s)' % lens), 'sum(%s)' % lens, C('np.sum(np.asarray(%s))' % lens), C('int(np.sum(%s))' % lens)}
+    lns = {'len(%s)' % lst}
+    raises = [r for r in walk_local(fn) if isinstance(r, ast.Raise)]
+    good, wrong, unknown = [], [], []
+    for r in raises:
+        pc = path_condition(fi, r, fn)
+        at = _atoms(pc)
+        if at is None:
+            unknown.append(r)
+            continue
+        for c in at:
+            sides = [xt(fi, c.lhs), xt(fi, c.rhs)]
+            if (sides[0] in sums and sides[1] in lns) or (sides[1] in sums and sides[0] in lns):
+                (good if c.op is ast.NotEq and len(at) == 1 else wrong).append((r, c, pc))
+    rets = returns_of(fn)
+    if good:
+        r, c, pc = good[0]
+        owner = pc[0][2]
+        ck.check(all(cfg.dominates(owner, x) for x in rets), rule + '.guard', mod, owner, F, repr(c),
+                 'sum of lengths must equal the data length, else raise',
+                 'the sum-of-lengths guard does not precede every return')
+    elif wrong:
+        r, c, pc = wrong[0]
+        ck.bad(rule + '.guard', mod, pc[0][2], F, ' and '.join(repr(x) for x in _atoms(pc)),
+               'partition_list must reject lengths whose sum differs from len(list): it must raise exactly when sum(lengths) != len(list)')
+    elif unknown or raises:
+        ck.missing(rule + '.guard', 'condition of the raise in partition_list not recognised')
+    else:
+        ck.bad(rule + '.guard', mod, fn, F, 'sum(lengths) != len(list)',
+               'partition_list must reject lengths whose sum differs from len(list): no guard raises')
+    # --- the slicing loop
+    out = _returned_name(fi, fn)
+    cands = []
+    for l in [x for x in walk_local(fn) if isinstance(x, ast.For)]:
+        for c in calls_in(l):
+            if isinstance(c.func, ast.Attribute) and c.func.attr == 'append' and len(c.args) == 1 and \
+                    _enclosing(mod, c, (ast.For,), stop=fn) is l:
+                cands.append((l, c))
+    if len(cands) != 1 or out is None or ct(cands[0][1].func.value) != out:
         ck.missing(rule, 'slicing loop')
         return
-    loop = loops[0]
-    apps = [c for c in calls_in(loop) if isinstance(c.func, ast.Attribute) and c.func.attr == 'append']
-    ok = False
-    why = 'no append of list[start:stop]'
-    if len(apps) == 1 and isinstance(apps[0].args[0], ast.Subscript) and isinstance(apps[0].args[0].slice, ast.Slice):
-        sl = apps[0].args[0].slice
-        lo, hi = u(sl.lower), u(sl.upper)
-        stops = [s for s in loop.body if isinstance(s, ast.Assign) and u(s.targets[0]) == hi]
-        advs = [s for s in loop.body if isinstance(s, ast.Assign) and u(s.targets[0]) == lo and u(s.value) == hi]
-        ok_stop = len(stops) == 1 and isinstance(stops[0].value, ast.BinOp) and isinstance(stops[0].value.op, ast.Add) \
-            and lo in (u(stops[0].value.left), u(stops[0].value.right)) and ps[1] in names_loaded(stops[0].value)
-        order = ok_stop and advs and loop.body.index(stops[0]) < loop.body.index(fi.stmt(apps[0])) < loop.body.index(advs[0])
-        init = [s for s in fn.body if isinstance(s, ast.Assign) and u(s.targets[0]) == lo and u(s.value) == '0']
-        ok = bool(ok_stop and order and init and u(apps[0].args[0].value) == ps[0] and sl.step is None)
-        why = 'stop = start + len_k; append(list[start:stop]); start = stop; start initialised to 0'
-    ck.check(ok, rule + '.offsets', mod, loop, 'partition_list', '; '.join(u(s) for s in loop.body),
-             why, 'pieces must be list[start:stop] with stop = start + lengths[k], start = stop afterwards, start = 0 initially')
+    loop, app = cands[0]
+    app_s = fi.stmt(app)
+    body = '; '.join(u(s) for s in loop.body)
+    shape = _loop_shape(fi, loop)
+    piece = xp(fi, app.args[0], strict=False)
+    if shape is None or not (isinstance(piece, ast.Subscript) and isinstance(piece.slice, ast.Slice)):
+        ck.missing(rule + '.offsets', 'append of %s[start:stop] in a loop over the lengths: %s' % (lst, body[:160]))
+        return
+    coll, kidx, lk = shape
+    if coll != lens:
+        ck.missing(rule + '.offsets', 'the slicing loop does not run over `%s`: for %s in %s' % (lens, u(loop.target), u(loop.iter)))
+        return
+    # the raw lower bound names the running offset
+    raw = app.args[0]
+    if isinstance(raw, ast.Name):
+        raw = fi.resolve(raw)
+    lo = raw.slice.lower.id if isinstance(raw, ast.Subscript) and isinstance(raw.slice, ast.Slice) and \
+        isinstance(raw.slice.lower, ast.Name) else None
+    if lo is None:
+        ck.missing(rule + '.offsets', 'lower bound of the slice is not a running-offset variable: %s' % u(raw)[:120])
+        return
+    scope = {lo, lens, lst} | {kidx or ''} | {x for x in lk if x.isidentifier()}
+    early = [s for s in _updates(loop, lo) if cfg.dominates(s, app_s)]
+    if early:
+        ck.bad(rule + '.offsets', mod, loop, F, body,
+               'the running offset `%s` is advanced (%s) BEFORE the piece is appended: every piece is sliced with the '
+               'offset of the next one' % (lo, u(early[0])))
+        return
+    stops = [C('%s + %s' % (lo, x)) for x in lk] + [C('%s + %s' % (x, lo)) for x in lk]
+    hi = xp(fi, raw.slice.upper, stop=(lo,), strict=False) if raw.slice.upper is not None else None
+    ok_piece = ct(piece.value) == lst and raw.slice.step is None and hi is not None and ct(hi) in stops
+    if ct(piece.value) != lst:
+        dec, dscope = piece.value, {lst, lens}          # slices of something else
+    elif raw.slice.step is not None or hi is None:
+        dec, dscope = ast.Constant(value=0), scope      # a step / an open upper bound
+    else:
+        dec, dscope = hi, scope - {lst}                 # the upper bound as a function of offset and lengths
+    ok = _three(ck, ok_piece, dec, dscope,
+                rule + '.offsets', mod, loop, F, body,
+                'piece k is list[start:start + lengths[k]]',
+                'pieces must be list[start:stop] with stop = start + lengths[k], start = stop afterwards, start = 0 initially')
+    if not ok:
+        return
+    advs = _updates(loop, lo)
+    inits = [s for s in assigns_to(fn, lo) if not _inside(s, loop)]
+    ok_adv = False
+    val = None
+    if len(advs) == 1:
+        s = advs[0]
+        if isinstance(s, ast.AugAssign):
+            val = ast.BinOp(left=ast.Name(id=lo, ctx=ast.Load()), op=s.op, right=xp(fi, s.value))
+        elif fi.def_value(s, lo) is not None:
+            val = xp(fi, fi.def_value(s, lo), stop=(lo,), strict=False)
+        ok_adv = val is not None and ct(val) in stops and cfg.dominates(app_s, s) and cfg.postdominates(s, app_s) \
+            and _inside(s, loop)
+    if len(advs) == 1 and val is not None and ct(val) in stops and not ok_adv:
+        ck.bad(rule + '.offsets', mod, loop, F, body,
+               'the running offset must advance by lengths[k] exactly once per piece, AFTER the piece was appended')
+        return
+    _three(ck, ok_adv, val if len(advs) == 1 else ast.Constant(value=0), scope, rule + '.offsets', mod, loop, F, body,
+           'stop = start + len_k; append(list[start:stop]); start = stop',
+           'pieces must be list[start:stop] with stop = start + lengths[k], start = stop afterwards, start = 0 initially')
+    ok_init = len(inits) == 1 and isinstance(inits[0], ast.Assign) and fi.def_value(inits[0], lo) is not None and \
+        const_value(fi.def_value(inits[0], lo)) == 0 and cfg.dominates(inits[0], loop)
+    _three(ck, ok_init, fi.def_value(inits[0], lo) if len(inits) == 1 and isinstance(inits[0], ast.Assign) else None, scope,
+           rule + '.offsets', mod, inits[0] if inits else loop, F, '%s initialised before the loop' % lo,
+           'start initialised to 0', 'the running offset must start at 0')
+
+
+def _loop_variable_rebinds(ck):
+    """Role-based form of the documented suppression `index -= traj_len` of
+    partition_indices (sa/patterns.py SUPPRESS, keyed by source text): if the
+    ONLY stores the effects analysis attributes to the flat-index parameter
+    are augmented assignments to a bare name that is the loop variable of a
+    `for <name> in <that parameter>` loop (or a plain copy of it made inside
+    that loop), they rebind the name - the elements of a flat list of integer
+    indices are immutable ints - whatever the variable or the subtracted
+    operand is called."""
+    from ..patterns import shared
+    _, ea = shared(ck.repo)
+    mod = ck.repo.mod(RA)
+    fn = mod.func('partition_indices')
+    fi = finfo(mod, fn)
+    p = params(fn)[0]
+    recs = [r for r in ea.store_records(RA, 'partition_indices') if p in r.get('params', ())]
+    if not recs:
+        return {}
+    names = set()
+    for l in walk_local(fn):
+        if isinstance(l, ast.For) and isinstance(l.target, ast.Name) and xt(fi, l.iter) == p:
+            names.add(l.target.id)
+            for s in walk_local(l):
+                if isinstance(s, ast.Assign) and len(s.targets) == 1 and isinstance(s.targets[0], ast.Name) \
+                        and ct(s.value) in (l.target.id, 'int(%s)' % l.target.id):
+                    names.add(s.targets[0].id)
+    if all(r.get('kind') == 'augassign-inplace' and isinstance(r.get('node'), ast.AugAssign) and
+           isinstance(r['node'].target, ast.Name) and r['node'].target.id in names for r in recs):
+        return {(RA, 'partition_indices'): {p: 'elements of a flat list of integer indices are immutable ints: `x op= v` '
+                                               'on the loop variable over `%s` (or a copy of it) rebinds the name' % p}}
+    return {}
 
 
 def check(ck):
@@ -334,5 +1155,6 @@ def check(ck):
     check_no_arg_mutation(ck, 'C10.D6.inputs-unmodified', [
         (CU, 'assign_to_nearest_center'), (CU, 'find_cluster_centers'),
         (CU, 'ClusterResult.partition'), (RA, 'partition_indices'),
-        (RA, 'partition_list'), (CU, 'MolecularClusterMixin.predict')])
+        (RA, 'partition_list'), (CU, 'MolecularClusterMixin.predict')],
+        extra_exempt=_loop_variable_rebinds(ck))
     return EXPLANATION
